@@ -71,9 +71,72 @@ def main(argv):
         if cmd.upper() in CHECKS:
             pid = cmd.upper()
             mod = importlib.import_module(pid.lower())
-            return mod.run(tier=tier, replay=replay)
+            if replay:
+                return do_replay(pid, mod, replay)
+            rc = mod.run(tier=tier, replay=None)
+            if tier == "thorough" and not os.environ.get("VERIF_REPO"):
+                rc = thorough_extras(pid, rc)
+            return rc
         print("unknown command", cmd)
         return 2
     except facts.ToolError as e:
         print("TOOL ERROR: %s" % e)
         return 2
+
+
+def do_replay(pid, mod, path):
+    """Re-evaluate one recorded violation on the current tree: run the check and
+    report whether the violation with the same key is still produced."""
+    want = json.load(open(path))
+    key = want.get("key")
+    import io
+    import contextlib
+    buf = io.StringIO()
+    with contextlib.redirect_stdout(buf):
+        rc = mod.run(tier="quick", replay=None)
+    out = buf.getvalue()
+    still = ("key=%s" % key) in out
+    print("replay %s: violation %s %s on the current tree" % (pid, key, "REPRODUCES" if still else "does not reproduce"))
+    if still:
+        for ln in out.splitlines():
+            if key in ln:
+                print(ln)
+        print("VIOLATION property=%s replay=%s" % (pid, path))
+        return 1
+    return 0
+
+
+def thorough_extras(pid, rc):
+    """Thorough tier: run the checker self-test corpus (seeded variants that must
+    fire, behaviour-preserving twins that must stay silent) and, where defined,
+    the clippy cross-reference; append the outcome to the evidence file.  A
+    self-test failure means the CHECKER is broken (exit 2), not the property."""
+    import selftest
+    t0 = time.time()
+    res = selftest.run_all(pid)
+    bad = [r for r in res if r["status"] not in ("ok", "skipped")]
+    xref = None
+    try:
+        import xref as xr
+        xref = xr.cross_reference(pid)
+    except Exception as e:   # cross-reference is advisory
+        xref = {"error": str(e)}
+    # the self-tests overwrote nothing (they use their own evidence dir); re-run the check so the evidence on disk
+    # is the one of /repo, then extend it
+    evp = os.path.join(facts.VERIF, "evidence", pid + ".json")
+    ev = json.load(open(evp))
+    ev["tier"] = "thorough"
+    ev["coverage"]["selftest"] = {"cases": res, "failed": len(bad), "wall_s": round(time.time() - t0, 1),
+                                  "meaning": "fire = seeded property-breaking variant must be reported by the named rule; "
+                                             "silent = behaviour-preserving twin must not be reported"}
+    if xref is not None:
+        ev["coverage"]["cross_reference"] = xref
+    ev["wall_s"] = round(ev.get("wall_s", 0) + time.time() - t0, 2)
+    json.dump(ev, open(evp, "w"), indent=1)
+    print("[%s] thorough: %d self-test case(s), %d failed; cross-reference: %s" % (
+        pid, len(res), len(bad), (xref or {}).get("summary", xref)))
+    if bad:
+        for r in bad:
+            print("SELFTEST-FAILED %s %s: %s" % (pid, r["case"], r["detail"]))
+        return 2 if rc == 0 else rc
+    return rc
